@@ -6,6 +6,8 @@ package chainsim
 
 import (
 	"fmt"
+
+	pc "github.com/pokt-network/pocket-core/x/pocketcore/types"
 	"sort"
 
 	"github.com/pokt-network/pocket-core/codec"
@@ -125,6 +127,15 @@ func (s *Sim) interfere(q Interf, phase string) {
 			if q.Height > 0 {
 				s.res.Probe("historical_query")
 			}
+		case "dispatch":
+			// a client asks for the session of an application on a chain (fills the session cache)
+			chain := q.Path
+			if chain == "" {
+				chain = s.cfg.Chains[0]
+			}
+			subject = "dispatch"
+			hdr := pc.SessionHeader{ApplicationPubKey: KeyFor(s.cfg.KeySeed, q.Key).PublicKey().RawString(), Chain: chain, SessionBlockHeight: s.sessionHeightAt(n.App.LastBlockHeight())}
+			_, _ = n.App.HandleDispatch(hdr)
 		case "checktx", "simulate":
 			var bz []byte
 			if q.Tx != nil {
